@@ -34,6 +34,12 @@ import MalVerif.Py.GenNeo4j.IngestGraph
 import MalVerif.Py.GenNeo4j.GetModel
 import MalVerif.Py.GenMSerial.ToDict
 import MalVerif.Py.GenMSerial.FromDict
+import MalVerif.Py.GenLang.Assets
+import MalVerif.Py.GenLang.Assocs
+import MalVerif.Py.GenLang.Vars
+import MalVerif.Py.GenLangType.Typing
+import MalVerif.Py.GenLangType.Build
+import MalVerif.Py.AbsLangGraph
 open Lean MalVerif
 
 namespace Drv
@@ -1690,6 +1696,135 @@ def opGenLoadDoc (j : Json) : R Json := do
 end M
 
 end GenXS
+/-! #### `_generate_graph` of `Py/GenLangType` and the lookups of `Py/GenLang` (C15) -/
+namespace GenXG
+open MalVerif.Py MalVerif.Py.LSpec MalVerif.Py.LType
+
+/-- the classes of `languagegraph.py` behind the labels of prelude convention 11 of `PreludeLangType` (raised by the
+construction); everything else as in `GenX.pyErrName` -/
+def errName : PyErr → String
+  | .lookupError => "LanguageGraphSuperAssetNotFoundError"
+  | .attackGraphException => "LanguageGraphAssociationError"
+  | .attackGraphStepExpressionError => "LanguageGraphStepExpressionError"
+  | .languageGraphException => "LanguageGraphException"
+  | e => GenX.pyErrName e
+
+/-- constant-time object stores (the heap updates of the generated code build chains of closures; pure representation change) -/
+def normT (s : TH) : TH :=
+  let aa := (Array.range s.nextA).map s.g.asset
+  let ca := (Array.range s.nextC).map s.g.assoc
+  let sa := (Array.range s.nextA).map s.asteps
+  let da := (Array.range s.nextA).map s.adesc
+  let dc := (Array.range s.nextC).map s.cdesc
+  { s with g := { s.g with asset := fun r => aa.getD r {}, assoc := fun r => ca.getD r {} },
+           asteps := fun r => sa.getD r [], adesc := fun r => da.getD r "{}", cdesc := fun r => dc.getD r "{}" }
+
+/-- an object reference as its position in the list of the language graph that holds the objects of its kind
+(`LanguageGraph.assets` / `.associations` / `.attack_steps`); `-1`: not in that list -/
+def idxJ (l : List Nat) (r : Nat) : Json := match l.idxOf? r with | some i => jN i | none => jI (-1)
+
+/-- a `DependencyChain` object, attribute by attribute: `[type, next_link, fieldname, association, left_chain,
+right_chain, subtype]` -/
+partial def chainJ (s : TH) : PyDepChain → Json
+  | .mk t n f a l r st =>
+    let o (x : Option PyDepChain) : Json := match x with | some c => chainJ s c | none => Json.null
+    Json.arr #[jS t, o n, jS f, (match a with | some c => idxJ s.g.associations c | none => Json.null), o l, o r,
+               (match st with | some x => idxJ s.g.assets x | none => Json.null)]
+
+/-- the heap `_generate_graph` leaves, read off object by object (no abstraction: lists in their order, the
+`children` / `parents` dictionaries in insertion order with their lists and dependency chains) -/
+def graphJ (s : TH) : Json :=
+  let aidx := idxJ s.g.assets
+  let cidx := idxJ s.g.associations
+  let tidx := idxJ s.attack_steps
+  let store := absStore s.spec
+  let linkJ (d : List (String × List (GSRef × Option PyDepChain))) : Json :=
+    jsonOfList (fun (e : String × List (GSRef × Option PyDepChain)) => Json.arr #[jS e.1,
+      jsonOfList (fun (p : GSRef × Option PyDepChain) =>
+        Json.arr #[tidx p.1, match p.2 with | some c => chainJ s c | none => Json.null]) e.2]) d
+  let fJ (f : PyLGField) : Json :=
+    Json.arr #[aidx f.asset, jS f.fieldname, jI f.minimum, (if f.maximum < 0 then Json.null else jI f.maximum)]
+  jO [("assets", jsonOfList (fun r =>
+          let o := s.g.asset r
+          Json.arr #[Drv.jOptS o.name, Drv.jOptB o.is_abstract, jS (s.adesc r), jsonOfList cidx o.associations,
+                     jsonOfList tidx (s.asteps r), jsonOfList aidx o.super_assets, jsonOfList aidx o.sub_assets]) s.g.assets),
+      ("assocs", jsonOfList (fun c =>
+          let o := s.g.assoc c
+          Json.arr #[jS o.name, fJ o.left_field, fJ o.right_field, jS (s.cdesc c)]) s.g.associations),
+      ("steps", jsonOfList (fun t =>
+          let o := s.gstep t
+          Json.arr #[jS o.name, jS o.type, aidx o.asset, jS o.ttc, jS o.description,
+                     (match o.attributes with
+                      | some r => Drv.stepToJson (readStep store (absStep s.spec r))
+                      | none => Json.null),
+                     linkJ o.children, linkJ o.parents]) s.attack_steps)]
+
+def jExc {α} (f : α → Json) (x : Except PyErr α) : Json :=
+  match x with | .ok v => f v | .error e => jO [("error", jS (GenX.pyErrName e))]
+
+def jOptRef (l : List Nat) (x : Option Nat) : Json := match x with | some r => idxJ l r | none => Json.null
+
+/-- `LanguageGraph(spec)` = the GENERATED `lg__generate_graph` on a heap that holds nothing but the loaded specification
+(`PreludeWrapper` W3: `newLanguageGraph`; `runBuild` of `Py/AbsLangType`), then the GENERATED lookups of `Py/GenLang` (and the two helpers of
+`Py/GenLangType/Typing`) asked of the heap it returned -/
+def opGenLangGraph (j : Json) : R Json := do
+  let L ← Drv.parseLang (← jget j "lang")
+  let recLimit := (← jfieldOpt jnat j "recLimit").getD 1000
+  let quads := (← jfieldOpt (jlist (fun e => do
+    match (← jarr e) with
+    | [a, b, c, d] => pure ((← jstr a), (← jstr b), (← jstr c), (← jstr d))
+    | _ => throw "bad quad")) j "lookups").getD []
+  let byname := (← jfieldOpt (jlist jstr) j "byname").getD []
+  let vars := (← jfieldOpt (jlist (fun e => do
+    match (← jarr e) with
+    | [a, b] => pure ((← jstr a), (← jstr b))
+    | _ => throw "bad variable query")) j "vars").getD []
+  let aq := (← jfieldOpt (jlist (fun e => do
+    match (← jarr e) with
+    | [a, b, c] => pure ((← jnat a), (← jstr b), (← jnat c))
+    | _ => throw "bad association query")) j "aq").getD []
+  let common := (← jfieldOpt (jlist (fun e => do
+    match (← jarr e) with
+    | [a, b] => pure ((← jnat a), (← jnat b))
+    | _ => throw "bad pair")) j "common").getD []
+  let wantQ := (← jfieldOpt jbool j "queries").getD false
+  match GenLangType.lg__generate_graph (TH.init (loadPy L) recLimit) with
+  | .error e => pure (jO [("error", jS (errName e))])
+  | .ok s1 =>
+    let s := normT s1
+    let g := s.g
+    let aidx := idxJ g.assets
+    let refs (l : List Nat) : Json := jsonOfList aidx l
+    let base : List (String × Json) :=
+      [("graph", graphJ s),
+       ("specUnchanged", jB ((GenXL.langToJson (absLang s.spec)).compress == (GenXL.langToJson L).compress))]
+    if !wantQ then pure (jO base) else
+    let aAt (i : Nat) : Nat := g.assets.getD i g.assets.length
+    let cAt (i : Nat) : Nat := g.associations.getD i g.associations.length
+    pure <| jO (base ++ [
+      ("isSub", jsonOfList (fun a => jsonOfList (fun b => jExc jB (GenLang.lgasset_is_subasset_of g a b)) g.assets) g.assets),
+      ("isSubNone", jsonOfList (fun a => jExc jB (GenLangType.lgasset_is_subasset_of s a none)) g.assets),
+      ("supers", jsonOfList (fun a => jExc refs (GenLang.lgasset_get_all_superassets g a)) g.assets),
+      ("subs", jsonOfList (fun a => jExc refs (GenLang.lgasset_get_all_subassets g a)) g.assets),
+      ("lookups", jsonOfList (fun (q : String × String × String × String) =>
+          jExc (jOptRef g.associations) (GenLang.lg_get_association_by_fields_and_assets g q.1 q.2.1 q.2.2.1 q.2.2.2)) quads),
+      ("byname", jsonOfList (fun n => jOptRef g.assets (GenLang.lg_get_asset_by_name g n)) byname),
+      ("vars", jsonOfList (fun (q : String × String) =>
+          jExc (fun (v : PyVarObj) => match v with
+                 | .expr e => jO [("expr", Drv.exprToJson (exprOfPy e))]
+                 | .var v => jO [("var", jS v.name)]
+                 | .none => Json.null)
+            (GenLang.lg__get_variable_for_asset_type_by_name (pyFuelL s.spec) s.spec q.1 q.2)) vars),
+      ("aq", jsonOfList (fun (q : Nat × String × Nat) =>
+          let c := cAt q.1; let a := aAt q.2.2
+          Json.arr #[jB (GenLang.lgassoc_contains_fieldname g c q.2.1),
+                     jExc jB (GenLang.lgassoc_contains_asset g c a),
+                     jExc jS (GenLang.lgassoc_get_opposite_fieldname g c q.2.1),
+                     jExc (jOptRef g.assets) (GenLang.lgassoc_get_opposite_asset g c a)]) aq),
+      ("common", jsonOfList (fun (q : Nat × Nat) =>
+          jExc (jsonOfList Drv.jOptS) (GenLangType.lgasset_get_all_common_superassets s (aAt q.1) (some (aAt q.2)))) common)])
+
+end GenXG
 
 def dispatch (j : Json) : R Json := do
   let op ← jfield jstr j "op"
@@ -1723,6 +1858,7 @@ def dispatch (j : Json) : R Json := do
   | "gen_ag_fromdict" => GenXS.opGenAgFromdict j
   | "gen_ser_model" => GenXS.M.opGenSerModel j
   | "gen_load_doc" => GenXS.M.opGenLoadDoc j
+  | "gen_langgraph" => GenXG.opGenLangGraph j
   | _ => throw "bad-op"
 
 def handle (line : String) : String :=
